@@ -25,6 +25,7 @@ import (
 type req struct {
 	kind, typ, id, from, to, payload string
 	xmlns                            string // "" = inherited from the stream, else declared on the element
+	ext                              bool   // attributes of another namespace that are named like the stanza attributes (and say the opposite)
 }
 
 func (r req) doc() string {
@@ -45,13 +46,20 @@ func (r req) doc() string {
 	if r.to != "" {
 		fmt.Fprintf(&b, " to='%s'", r.to)
 	}
+	if r.ext {
+		opposite := "get"
+		if r.typ == "get" || r.typ == "set" {
+			opposite = "result"
+		}
+		fmt.Fprintf(&b, " xmlns:ext='urn:ext' ext:type='%s' ext:id='zz' ext:from='evil@example.org/x'", opposite)
+	}
 	b.WriteString(">" + r.payload + "</" + r.kind + ">")
 	return b.String()
 }
 
 var kinds = []string{"iq", "message", "presence"}
 var types = []string{"get", "set", "result", "error", "-", "", "bogus"}
-var ids = []string{"a", ""}
+var ids = []string{"a", "", " ", "\u00a0"} // the last two: ids are opaque - white space is an id like any other
 var froms = []string{"", "juliet@example.com/balcony", "me@example.net", "@@bad", "Juliet@Example.COM/balcony", "me@example.net/res"} // the last one: a spelling that is not the canonical form of the address ; then the address this session is bound to (only the bare form stands for "no sender")
 var tos = []string{"", "me@example.net/res", "example.net", "someone@else.example/x"} // the last two: our domain, and an address that is not ours (a gateway, a misrouted request): any to
 var payloads = []string{"", `<q xmlns='urn:q'/>`, `<iq xmlns='urn:q' id='a' type='result'/>`, `text`, `<other xmlns='urn:other'><q xmlns='urn:q'/></other>`}
@@ -200,10 +208,16 @@ func body(c *nd.Ctx) nd.Result {
 		// a client stream and vice versa): the session treats it as a stanza
 		r.xmlns = map[string]string{stanza.NSClient: stanza.NSServer, stanza.NSServer: stanza.NSClient}[ns]
 	}
+	r.ext = c.Choose(2, "foreign-namespace-attributes-named-like-stanza-attributes") == 1
 	prog := c.Choose(nPrograms, "handler-program")
 	readAll := c.Choose(2, "handler-reads-payload") == 1
 	wiring := c.Choose(3, "wiring") // 0 bare handler, 1 mux with matching IQ handler(s), 2 mux without
 	precede := c.Choose(2, "preceded-by-answered-request") == 1
+	if (r.ext || r.id == " " || r.id == "\u00a0") && (r.to != tos[0] || r.payload != payloads[0] || r.xmlns != "" || precede) {
+		// the rarer header shapes are combined with the first value of the
+		// dimensions that do not look at the header
+		return nd.Result{Skip: true}
+	}
 	doc := r.doc()
 	c.Note("ns=%s request=%s handler-program=%d reads-payload=%v wiring=%d preceded=%v", ns, doc, prog, readAll, wiring, precede)
 	res := nd.Result{Outcome: "no-reply-needed", NonTrivial: fmt.Sprintf("%s|%d|%v|%d|%v|%s", doc, prog, readAll, wiring, precede, ns)}
